@@ -141,6 +141,10 @@ def check(case):
             e = sim.errors[nerr]
             out.append(('%s:%s:escaped:%s@%s' % (fam, kind, e[2], e[3]), '%r' % (e,)))
         raw = None
+        oversized = len(octets) > 255      # the encoder has no extended length for community lists: refusing is accepted,
+        #                                    but the request must not leave anything behind for the requests that follow
+        if oversized and (code != 200 or (isinstance(resp, dict) and resp.get('status') is False)):
+            continue
         if endpoint == 'json_to_bin':
             if code != 200 or not isinstance(resp, dict) or not isinstance(resp.get('bin'), str):
                 out.append(('%s:%s:not-accepted:%s' % (fam, kind, code), 'POST %r -> %s %r' % (texts, code, resp)))
@@ -182,7 +186,8 @@ def check(case):
 
 @st.composite
 def ext_case(draw, kind):
-    n = draw(st.sampled_from([1, 1, 1, 1, 2, 2, 3, 15, 16, 31]))      # 16 x 8 = 128 and 31 x 8 = 248 octets: one-octet length edges
+    # 16 x 8 = 128 and 31 x 8 = 248 octets: one-octet length edges; 32 and 40 do not fit a one-octet length any more
+    n = draw(st.sampled_from([1, 1, 1, 1, 1, 2, 2, 2, 3, 3, 15, 16, 31, 32, 40]))
     octets = b''.join(KINDS[kind](draw) for _ in range(n))
     return {'fam': 'ext', 'kind': kind, 'octets': octets.hex(), 'send': draw(st.integers(0, 3)) == 0}
 
